@@ -390,7 +390,8 @@ class _SG:
       if cands:
         return d(st.sampled_from(cands))
     styles = (['positive'] if positive else
-              (CONST_STYLES_ALL if self.cfg.get('wild_consts') else CONST_STYLES_SANE))
+              (self.cfg.get('const_styles') or
+               (CONST_STYLES_ALL if self.cfg.get('wild_consts') else CONST_STYLES_SANE)))
     t = {'name': self._name('const', op), 'shape': shape, 'dtype': 'f32',
          'kind': 'const', 'role': role, 'positive': positive,
          'data': {'seed': d(st.integers(0, 2**16)),
